@@ -232,3 +232,21 @@ pub fn train_deterministic<R>(f: impl FnOnce() -> R) -> R {
     unsafe { libc::srand(1) };
     f()
 }
+
+/// A healthy writer that accepts at most `chunk` bytes per `write` call (what pipes, sockets and
+/// compressors do): callers must loop (`write_all`).
+pub struct ShortWriter {
+    pub written: Vec<u8>,
+    pub chunk: usize,
+}
+
+impl std::io::Write for ShortWriter {
+    fn write(&mut self, buf: &[u8]) -> std::io::Result<usize> {
+        let n = buf.len().min(self.chunk.max(1));
+        self.written.extend_from_slice(&buf[..n]);
+        Ok(n)
+    }
+    fn flush(&mut self) -> std::io::Result<()> {
+        Ok(())
+    }
+}
